@@ -406,7 +406,34 @@ def r16_8(chk):
     chk.floor("R16.8", 1, "_configure_lf")
 
 
+def r16_9(chk):
+    chk.rule("R16.9", "a richer model may have a scoped rate term the nested model lacks altogether (kappa per edge over F81, GTR's extra exchangeabilities per edge over HKY85): in update_scoped_rules the list of nested rules matching a rich rule can be EMPTY, so its first element is read only after an emptiness test -- an unguarded `matches[0]` raises IndexError, evo._InitFrom swallows it, the alternate starts from its defaults and under an evaluation limit hypothesis(HKY85, GTR time_het='max') reports a negative LR")
+    from ..cfg import build
+
+    m = chk.repo.module("evolve/likelihood_function.py")
+    fn = m.func("update_scoped_rules")
+    g = build(fn)
+    firsts = g.nodes_containing(lambda x: isinstance(x, ast.Subscript) and isinstance(x.ctx, ast.Load) and isinstance(x.value, ast.Name) and isinstance(x.slice, ast.Constant) and x.slice.value in (0, -1))
+    if not firsts:
+        chk.ok("R16.9", key(m, "update_scoped_rules", "no first-element read"), m.loc(fn), "no subscript [0] on a collected list", nontrivial=False)
+        chk.floor("R16.9", 0, "")
+        return
+    for f in firsts:
+        sub = next(x for x in ast.walk(f.ast) if isinstance(x, ast.Subscript) and isinstance(x.value, ast.Name) and isinstance(x.slice, ast.Constant) and x.slice.value in (0, -1))
+        lst = sub.value.id
+        # guards: `if not lst: continue/raise/return`  or an enclosing `if lst:` / `if len(lst) ...`
+        guards = [nd for nd in g.nodes if nd.kind == "if" and norm(nd.ast.test) in (f"not {lst}", f"len({lst}) == 0", f"not len({lst})") and any(isinstance(x, (ast.Continue, ast.Raise, ast.Return, ast.Break)) for x in nd.ast.body)]
+        from .c09 import _enclosing_tests
+
+        stmt = f.ast
+        enclosing = [t for t in _enclosing_tests(fn, stmt) if t in (lst, f"len({lst}) == 1", f"len({lst}) > 0", f"len({lst}) >= 1")]
+        dominated = bool(guards) and all(g.dominated_by(f, [gd])[0] for gd in guards[:1])
+        chk.decide(dominated or bool(enclosing), "R16.9", key(m, "update_scoped_rules", f"{lst}[0] read after an emptiness test"), m.loc(sub), "guarded", f"`{norm(sub)}` is read although `{lst}` can be empty (no nested rule for that parameter): a.set_param_rule('kappa', is_independent=True); a.initialise_from_nested(<fitted F81>) raises IndexError")
+    chk.floor("R16.9", 1, "update_scoped_rules")
+
+
 def run(chk):
+    r16_9(chk)
     r16_8(chk)
     r16_7(chk)
     r16_6(chk)
